@@ -291,7 +291,9 @@ def wellformed(s):
             return False
         if not all(c.isalnum() or c == "_" for c in g):
             return False
-    return 1 <= len(s) <= 128
+    # OData ABNF: every segment is an odataIdentifier of at most 128 characters; checked here only up to 128 name characters in
+    # total (the dots between segments are separators, not part of any name)
+    return 1 <= sum(len(g) for g in segs) <= 128
 
 
 def gen_identifiers():
@@ -308,6 +310,8 @@ def gen_identifiers():
               "x.null", "falsehood", "ink", "orb", "andy", "notary", "all_", "any1", "T", "Z", "P", "e1", "E5", "t10", "d1", "a1b2",
               "durationx", "geographyx", "ge0", "le_", "_1", "__", "a.b.c.d", "A.B"}
     names |= {"a" * 127, "a" * 128, "b" + "1" * 127, "n." + "c" * 126, "_" * 128}
+    # the 128 limit counts word characters, not the dots between them
+    names |= {"a" * 64 + "." + "b" * 64, ".".join(["c" * 32] * 4), "n." + "d" * 127, ".".join("e" * 16 for _ in range(8))}
     # a keyword followed by a NON-ASCII letter is one identifier too (the look-aheads of the literal keywords are Unicode-aware)
     names |= {k + c for k in ("null", "true", "false", "not", "in", "eq", "any", "NULL", "True") for c in ("\u00e9", "\u00f1o", "\u00df", "\u00c4BLE", ".\u00e9", "\u0131")}
     # letters whose case folding lands on a keyword letter (long s, Kelvin sign, dotless / dotted i): still identifiers
